@@ -113,6 +113,22 @@ fn history_block(b: u64) -> BlockReport {
             judge(unit, x, &mut rep);
         }
     }
+    // a message is stamped (also with a hand-built, un-normalised time stamp and with the wall clock) between the calls
+    {
+        use dlt_core::dlt::{Endianness, Message, MessageConfig, PayloadContent};
+        let conf = MessageConfig { version: 1, counter: 0, endianness: Endianness::Little, ecu_id: None, session_id: None, timestamp: None, payload: PayloadContent::NonVerbose(1, vec![2, 3]), extended_header_info: None };
+        for (s, us) in [(base_s - 1, 1_000_000u32), (base_s, 999_999), (base_s, 0)] {
+            let m = Message::new(conf.clone(), None);
+            let stamped = guard(|| m.add_storage_header(Some(DltTimeStamp { seconds: s as u32, microseconds: us })).as_bytes().len());
+            std::hint::black_box(stamped.ok());
+            judge(1000, base_s * 1000 + 250, &mut rep);
+            judge(1_000_000, base_s * 1_000_000 + 250_000, &mut rep);
+            judge(1000, (base_s - 1) * 1000 + 999, &mut rep);
+        }
+        let m = Message::new(conf, None);
+        std::hint::black_box(guard(|| m.add_storage_header(None).as_bytes().len()).ok());
+        judge(1000, base_s * 1000 + 251, &mut rep);
+    }
     // both constructors alternately about instants less than a second apart
     let ms = base_s * 1000 - 100;
     for k in 0..12u64 {
